@@ -350,4 +350,6 @@ def run(ctx):
         okf = bp == [('in', 'flagword', 1)] and bi_ == [('in', 'flagword', 2)]
         detf = 'change_port <- bit %s, change_ip <- bit %s of the big-endian flag word v[4..8] (required: bit 1 / bit 2 alone)' % (bp, bi_)
     rep.check(r4, okf, 'change-request:flag-bits', detf, '%s:%d' % (tf.file, tf.line))
+    dispatch_sound(ctx, 'C15', 'a binding request reaches the STUN responder')
+
 
